@@ -70,13 +70,14 @@ pub struct NewSpec {
     pub start_id: u64,
     pub il: u8,
     pub efdt: u16,
+    pub fits: bool,
     pub queues: Vec<(u32, u32)>,
 }
 
 impl NewSpec {
     pub fn line(&self) -> String {
         let mut s = format!(
-            "sched new {} {} {} {} {} {} {} {}",
+            "sched new {} {} {} {} {} {} {} {} {}",
             if self.full { "f" } else { "b" },
             if self.fdt_car.0 { "i" } else { "d" },
             self.fdt_car.1,
@@ -84,6 +85,7 @@ impl NewSpec {
             self.start_id,
             self.il,
             self.efdt,
+            self.fits as u8,
             self.queues.len()
         );
         for (p, m) in &self.queues {
@@ -133,12 +135,22 @@ impl<'a> Runner<'a> {
     /// read until `none` at the current instant; returns the number of packets
     pub fn read_until_none(&mut self, cap: u64) -> u64 {
         let mut n = 0;
+        let mu = self.eng.mu();
+        let zero = self.eng.cfg.as_ref().map(|c| c.fdt_dur == 0).unwrap_or(false);
         loop {
             let r = self.read();
             if r.ends_with("none") || self.dead || r == "bad-op" {
                 return n;
             }
             n += 1;
+            if n > mu && !zero && n <= cap {
+                self.ctx.oracle_fail(
+                    "C12:read-exceeds-measure",
+                    &format!("{} consecutive packets from read() at the fixed instant {} exceed the measure {} of the state the loop started in", n, self.now.wrapping_sub(T0), mu),
+                );
+                self.dead = true;
+                return n;
+            }
             if n > cap {
                 let zero_dur = self.eng.cfg.as_ref().map(|c| c.fdt_dur == 0).unwrap_or(false);
                 self.ctx.oracle_fail(
@@ -305,10 +317,11 @@ fn rand_new(rng: &mut Rng) -> NewSpec {
     NewSpec {
         full: rng.bool(),
         fdt_car: (rng.bool(), *rng.pick(&[0, US, MS, S, 3600 * S])),
-        fdt_dur: *rng.pick(&[S, 5 * S, 20 * S, 60 * S, 3600 * S]),
+        fdt_dur: *rng.pick(&[1, US, MS, S, 5 * S, 20 * S, 60 * S, 3600 * S]),
         start_id: *rng.pick(&[1u64, 0, 0xFFFFE, 0xFFFFF, 77, 4242]),
-        il: rng.range(1, 4) as u8,
+        il: rng.range(0, 4) as u8,
         efdt: *rng.pick(&[200u16, 500, 1400]),
+        fits: true,
         queues,
     }
 }
@@ -430,8 +443,19 @@ fn random_case(r: &mut Runner, rng: &mut Rng, id: &str) {
                 r.now = r.next_instant();
                 r.read();
             }
-            94..=95 => {
+            94 => {
                 r.op("sched nb_objects".into());
+            }
+            95 => {
+                if rng.chance(1, 6) {
+                    // set_complete: every later add_object must be refused
+                    r.op("sched complete".into());
+                    r.ctx.count("op:complete");
+                    let a = rand_add(rng, &cfg, r.now, step);
+                    r.op(a.line());
+                } else {
+                    r.op("sched nb_objects".into());
+                }
             }
             96..=97 => {
                 r.op(format!("sched is_added {}", rng.range(1, nobj.max(1))));
@@ -460,7 +484,7 @@ fn removal_cases(r: &mut Runner, thorough: bool) {
                         let total = n_pk * (maxc as u64 + if car.is_some() { maxc as u64 } else { 0 });
                         for cut in 0..=total {
                             r.begin(&format!("rm-{}-{}-{}-{:?}-{}-{}", full as u8, n_sym, maxc, car.map(|c| (c.0 as u8, c.1)), allow as u8, cut));
-                            let cfg = NewSpec { full, fdt_car: (false, 3600 * S), fdt_dur: 3600 * S, start_id: 1, il: 1, efdt: 1400, queues: vec![(0, 1)] };
+                            let cfg = NewSpec { full, fdt_car: (false, 3600 * S), fdt_dur: 3600 * S, start_id: 1, il: 1, efdt: 1400, fits: true, queues: vec![(0, 1)] };
                             r.op(cfg.line());
                             let mut a = AddSpec::simple(0, n_sym as u64);
                             a.maxc = maxc;
@@ -480,8 +504,11 @@ fn removal_cases(r: &mut Runner, thorough: bool) {
                                 }
                                 guard += 1;
                             }
+                            r.op("sched nb_transfers 1".into());
+                            r.op("sched is_added 1".into());
                             r.op("sched remove 1".into());
                             r.op("sched nb_transfers 1".into());
+                            r.op("sched is_added 1".into());
                             r.drain();
                             r.finish();
                         }
@@ -530,6 +557,7 @@ fn grid_cases(r: &mut Runner, rng: &mut Rng, thorough: bool) {
             start_id: 1,
             il,
             efdt: 1400,
+            fits: true,
             queues: (0..nq as u32).map(|p| (p, mux)).collect(),
         };
         r.op(cfg.line());
@@ -570,6 +598,7 @@ fn timing_cases(r: &mut Runner, rng: &mut Rng, n: usize) {
             start_id: 1,
             il: 1,
             efdt: 1400,
+            fits: true,
             queues: if rng.bool() { vec![(0, rng.range(0, 2) as u32)] } else { vec![(0, 1), (3, 2)] },
         };
         r.op(cfg.line());
@@ -631,7 +660,7 @@ fn degenerate_cases(r: &mut Runner) {
                     for maxc in [0u32, 1, 2] {
                         i += 1;
                         r.begin(&format!("degen-{}", i));
-                        let cfg = NewSpec { full, fdt_car: (false, 0), fdt_dur: S, start_id: 0xFFFFF, il: 1, efdt: 1400, queues: vec![(0, 0)] };
+                        let cfg = NewSpec { full, fdt_car: (false, 0), fdt_dur: S, start_id: 0xFFFFF, il: (i % 2) as u8, efdt: 1400, fits: true, queues: vec![(0, 0)] };
                         r.op(cfg.line());
                         let mut a = AddSpec::simple(0, n_sym);
                         a.target = target;
@@ -659,7 +688,7 @@ fn degenerate_cases(r: &mut Runner) {
 fn zero_fdt_duration_case(r: &mut Runner) {
     for full in [true, false] {
         r.begin(&format!("fdtdur0-{}", full as u8));
-        let cfg = NewSpec { full, fdt_car: (false, S), fdt_dur: 0, start_id: 1, il: 1, efdt: 1400, queues: vec![(0, 1)] };
+        let cfg = NewSpec { full, fdt_car: (false, S), fdt_dur: 0, start_id: 1, il: 1, efdt: 1400, fits: true, queues: vec![(0, 1)] };
         r.op(cfg.line());
         r.op(AddSpec::simple(0, 2).line());
         r.op(format!("sched publish {}", r.now));
@@ -672,13 +701,125 @@ fn zero_fdt_duration_case(r: &mut Runner) {
 fn start_id_max_case(r: &mut Runner) {
     for full in [true, false] {
         r.begin(&format!("startid-max-{}", full as u8));
-        let cfg = NewSpec { full, fdt_car: (false, S), fdt_dur: 3600 * S, start_id: 4294967295, il: 1, efdt: 1400, queues: vec![(0, 1)] };
+        let cfg = NewSpec { full, fdt_car: (false, S), fdt_dur: 3600 * S, start_id: 4294967295, il: 1, efdt: 1400, fits: true, queues: vec![(0, 1)] };
         r.op(cfg.line());
         r.op(AddSpec::simple(0, 2).line());
         r.op(format!("sched publish {}", r.now));
         r.read_until_none(50);
         r.drain();
         r.finish();
+    }
+}
+
+/// refused publication: the default OTI cannot carry any FDT (finding sched-3 in ObjectsBeingTransferred mode;
+/// FullFDT: `publish` returns Err, nothing is sent)
+fn publish_refused_cases(r: &mut Runner) {
+    for full in [true, false] {
+        for nobj in 1..=2u64 {
+            for mux in [0u32, 2] {
+                r.begin(&format!("pubrefused-{}-{}-{}", full as u8, nobj, mux));
+                let cfg = NewSpec { full, fdt_car: (false, S), fdt_dur: 3600 * S, start_id: 1, il: 1, efdt: 1400, fits: false, queues: vec![(0, mux)] };
+                r.op(cfg.line());
+                for _ in 0..nobj {
+                    r.op(AddSpec::simple(0, 2).line());
+                }
+                r.op(format!("sched publish {}", r.now));
+                r.read_until_none(50);
+                r.now += S;
+                r.op(format!("sched publish {}", r.now));
+                r.read_until_none(50);
+                r.op("sched nb_objects".into());
+                r.finish();
+            }
+        }
+    }
+}
+
+/// removal in richer situations: a multiplexed sibling in transfer, removal while the pacing gate is closed,
+/// a publication issued right before the removal (the forced packet waits for the FDT), being mode with a
+/// multi-packet FDT
+fn removal2_cases(r: &mut Runner) {
+    for variant in 0..4u32 {
+        for allow in [false, true] {
+            for maxc in [1u32, 2] {
+                for cut in 0..=6u64 {
+                    r.begin(&format!("rm2-{}-{}-{}-{}", variant, allow as u8, maxc, cut));
+                    let cfg = NewSpec {
+                        full: variant != 3,
+                        fdt_car: (false, 3600 * S),
+                        fdt_dur: 3600 * S,
+                        start_id: 1,
+                        il: 1,
+                        efdt: if variant == 3 { 200 } else { 1400 },
+                        fits: true,
+                        queues: vec![(0, if variant == 0 { 2 } else { 1 })],
+                    };
+                    r.op(cfg.line());
+                    let mut a = AddSpec::simple(0, 3);
+                    a.maxc = maxc;
+                    a.allow = allow;
+                    if variant == 1 {
+                        a.target = Some(('d', 3 * S));
+                    }
+                    r.op(a.line());
+                    if variant == 0 {
+                        r.op(AddSpec::simple(0, 4).line());
+                    }
+                    r.op(format!("sched publish {}", r.now));
+                    let mut k = 0;
+                    let mut guard = 0;
+                    while k < cut && guard < 100 {
+                        let obs = r.read();
+                        if let Dec::Pkt { toi: 1, .. } = r.eng.last_dec {
+                            k += 1;
+                        }
+                        if obs.ends_with("none") {
+                            r.now += S / 2;
+                        }
+                        guard += 1;
+                    }
+                    r.op("sched nb_transfers 1".into());
+                    if variant == 2 {
+                        r.op(format!("sched publish {}", r.now));
+                    }
+                    r.op("sched remove 1".into());
+                    r.op("sched is_added 1".into());
+                    r.drain();
+                    r.finish();
+                }
+            }
+        }
+    }
+}
+
+/// the caller's clock goes backwards across an FDT carousel gap / an FDT expiry boundary
+/// (`duration_since(..).unwrap_or_default()` branches)
+fn clock_back_cases(r: &mut Runner) {
+    for full in [true, false] {
+        for back in [1u64, S, 10 * S] {
+            r.begin(&format!("clockback-{}-{}", full as u8, back));
+            let cfg = NewSpec { full, fdt_car: (false, S), fdt_dur: 5 * S, start_id: 1, il: 1, efdt: 1400, fits: true, queues: vec![(0, 1)] };
+            r.op(cfg.line());
+            let mut a = AddSpec::simple(0, 2);
+            a.car = Some((false, 2 * S));
+            r.op(a.line());
+            r.now += 20 * S;
+            r.op(format!("sched publish {}", r.now));
+            for i in 0..12u64 {
+                r.read_until_none(5000);
+                if r.dead {
+                    break;
+                }
+                if i % 3 == 2 {
+                    r.now -= back;
+                } else {
+                    r.now += 3 * S;
+                }
+            }
+            r.op("sched remove 1".into());
+            r.read_until_none(5000);
+            r.finish();
+        }
     }
 }
 
@@ -696,6 +837,9 @@ pub fn run(ctx: &mut Ctx, _eng: &mut dyn Engine) {
     degenerate_cases(&mut r);
     zero_fdt_duration_case(&mut r);
     start_id_max_case(&mut r);
+    publish_refused_cases(&mut r);
+    removal2_cases(&mut r);
+    clock_back_cases(&mut r);
     removal_cases(&mut r, thorough);
     grid_cases(&mut r, &mut rng, thorough);
     timing_cases(&mut r, &mut rng, if thorough { 3000 } else { 300 });
